@@ -10,7 +10,7 @@ echo "| seed | property | check run | verdict | first violation line |" >> $OUT
 echo "|------|----------|-----------|---------|----------------------|" >> $OUT
 for d in $(ls -d seeded/C*-* | sort -V); do
   id=$(basename $d); prop=${id%%-*}
-  if ! git -C /repo apply $d/patch.diff 2>/dev/null; then echo "| $id | $prop | - | patch does not apply | |" >> $OUT; continue; fi
+  if ! git -C /repo apply /verif/$d/patch.diff 2>/dev/null; then echo "| $id | $prop | - | patch does not apply | |" >> $OUT; continue; fi
   out=$(./check run $prop 2>&1); rc=$?
   git -C /repo checkout -- . ; git -C /repo clean -fdq -e '*.so' >/dev/null 2>&1
   last=$(echo "$out" | tail -1 | sed 's/|/\//g')
